@@ -1,9 +1,11 @@
 package main
 
 import (
+	"flag"
 	"fmt"
 	"go/ast"
 	"go/token"
+	"go/types"
 	"sort"
 	"strings"
 )
@@ -18,10 +20,33 @@ import (
 //   calls:          callee name (method name, or pkg.Func / Func) with the roots of receiver and
 //                   arguments.
 // A fix-point then propagates "callee writes its parameter i" to the caller's parameter that the
-// i-th actual is rooted at. Method calls are resolved by *name* over all eight packages (no type
-// information): an over-approximation of the callees, which is the safe direction for a may-write
-// summary. Calls are assumed to return fresh objects (not aliases of their operands); this and
-// function values / closures invoked indirectly are the stated unsound corners.
+// i-th actual is rooted at.
+//
+// TYPE-AWARE CALL RESOLUTION (go/types, typecheck.go): a static call or a method call on a concrete
+// type resolves to its one callee; a call through an interface (ff.Element, ff.Field, error, …) to the
+// method of that name of every named type OF THE REPOSITORY whose method set (T or *T) implements the
+// interface; a call of a function value to every function literal (booked as its enclosing function) and
+// plain function of the repository with an identical signature. Functions outside the repository appear
+// in `calls` as "ext:pkg.Func" / "ext:pkg.Type.Method".
+//
+// FRESH OBJECTS: a composite literal / new / make creates a fresh object; writes to ITS fields are booked
+// on no parameter. But a field of the literal that is initialised from an expression rooted at parameter
+// p (`out := &T{coefs: f.coefs}`) keeps referring to p's memory: a write THROUGH that field
+// (`out.coefs[i] = …`, or a callee writing `coefs[]` of its receiver `out`) is booked on p.
+//
+// ASSUMPTIONS (trusted; part of the base of C16Static / C20):
+//  A1  only non-test files without the `verif` build tag are analysed; client code is not;
+//  A2  results of calls are fresh objects (not aliases of the operands), and a callee does not store its
+//      arguments into the objects it is given -- inherited from the previous extractor; in particular the
+//      operand that an operation hands back when it already carries an error (hasErr) is not tracked;
+//  A3  functions outside the repository (all listed in `calls` as "ext:…", the list is pinned by a Lean theorem)
+//      write nothing reachable from their arguments -- except copy/delete and sort.Slice/Sort/…, which are
+//      booked as element writes of their first argument; closures are analysed as part of their
+//      enclosing function;
+//  A4  a local that is assigned from a pure access path, a type assertion or a range over an access path
+//      rooted at parameter p is an alias of p (flow-insensitively); re-binding a parameter name is ignored;
+//  A5  a field of a fresh literal initialised from ANY expression rooted at p counts as referring to p
+//      (also non-reference fields: the safe direction).
 
 type write struct {
 	param int    // 0 = receiver (or first parameter for plain functions: index counts receiver first)
@@ -29,9 +54,201 @@ type write struct {
 }
 
 type call struct {
-	name  string
-	roots []int // root parameter index of receiver (if method call) followed by each argument; -1 = none
+	name  string                    // source text of the callee (documentation)
+	keys  []string                  // resolved callees in the repository (type-based)
+	ext   string                    // "ext:…" if the callee is (also) outside the repository
+	roots []int                     // bitmask of root parameters of receiver (if method call) followed by each argument
+	lits  []map[int]map[string]bool // per actual: fresh literal whose field f was initialised from parameter i
+	paths []string                  // per actual: its access path below the root ("" = the root itself)
 	meth  bool
+}
+
+// type information shared by all summaries
+type typeCtx struct {
+	tpkgs   []*typedPkg
+	byPi    map[*pkgInfo]*typedPkg
+	keyOf   map[*types.Func]string
+	named   []*types.TypeName
+	sigs    []sigEntry // plain functions and function literals, for calls of function values
+	implMem map[string][]string
+}
+
+type sigEntry struct {
+	sig *types.Signature
+	key string
+}
+
+var tc *typeCtx
+
+func buildTypeCtx(repo string, pkgs []*pkgInfo, funcs map[string]*fn) *typeCtx {
+	t := &typeCtx{byPi: map[*pkgInfo]*typedPkg{}, keyOf: map[*types.Func]string{}, implMem: map[string][]string{}}
+	t.tpkgs = typeCheckAll(repo, pkgs)
+	for _, tp := range t.tpkgs {
+		t.byPi[tp.pi] = tp
+		sc := tp.tpkg.Scope()
+		for _, n := range sc.Names() {
+			if tn, ok := sc.Lookup(n).(*types.TypeName); ok && !tn.IsAlias() {
+				t.named = append(t.named, tn)
+			}
+		}
+	}
+	keys := make([]string, 0, len(funcs))
+	for k := range funcs {
+		keys = append(keys, k)
+	}
+	sort.Strings(keys)
+	for _, k := range keys {
+		f := funcs[k]
+		tp := t.byPi[f.pkg]
+		if tp == nil {
+			continue
+		}
+		if o, ok := tp.info.Defs[f.decl.Name].(*types.Func); ok {
+			t.keyOf[o] = k
+			sig := o.Type().(*types.Signature)
+			if sig.Recv() == nil {
+				t.sigs = append(t.sigs, sigEntry{sig, k})
+			}
+		}
+		ast.Inspect(f.decl.Body, func(n ast.Node) bool {
+			if fl, ok := n.(*ast.FuncLit); ok {
+				if sig, ok := tp.info.TypeOf(fl).(*types.Signature); ok {
+					t.sigs = append(t.sigs, sigEntry{sig, k})
+				}
+			}
+			return true
+		})
+	}
+	return t
+}
+
+// keys of the methods named `name` of the repository's named types that implement interface type `it`
+func (t *typeCtx) implementers(it types.Type, name string) []string {
+	mk := types.TypeString(it, nil) + "|" + name
+	if r, ok := t.implMem[mk]; ok {
+		return r
+	}
+	var out []string
+	if iface, ok := it.Underlying().(*types.Interface); ok {
+		for _, tn := range t.named {
+			ty := tn.Type()
+			if types.IsInterface(ty) {
+				continue
+			}
+			var recv types.Type
+			switch {
+			case types.Implements(ty, iface):
+				recv = ty
+			case types.Implements(types.NewPointer(ty), iface):
+				recv = types.NewPointer(ty)
+			default:
+				continue
+			}
+			o, _, _ := types.LookupFieldOrMethod(recv, true, tn.Pkg(), name)
+			if f, ok := o.(*types.Func); ok {
+				if k, ok := t.keyOf[f]; ok {
+					out = append(out, k)
+				}
+			}
+		}
+	}
+	sort.Strings(out)
+	t.implMem[mk] = out
+	return out
+}
+
+// functions outside the repository that write the elements of their first argument (booked like copy/delete)
+var extWritesArg0 = map[string]bool{"ext:sort.Slice": true, "ext:sort.SliceStable": true, "ext:sort.Sort": true,
+	"ext:sort.Stable": true, "ext:sort.Ints": true, "ext:sort.Strings": true, "ext:rand.Shuffle": true}
+
+func extFuncName(f *types.Func) string {
+	sig := f.Type().(*types.Signature)
+	if r := sig.Recv(); r != nil {
+		rt := r.Type()
+		if p, ok := rt.(*types.Pointer); ok {
+			rt = p.Elem()
+		}
+		if n, ok := rt.(*types.Named); ok {
+			p := ""
+			if n.Obj().Pkg() != nil {
+				p = n.Obj().Pkg().Name() + "."
+			}
+			return "ext:" + p + n.Obj().Name() + "." + f.Name()
+		}
+		return "ext:" + f.Name()
+	}
+	if f.Pkg() != nil {
+		return "ext:" + f.Pkg().Name() + "." + f.Name()
+	}
+	return "ext:" + f.Name()
+}
+
+// resolve the callee(s) of a call expression by type
+func (t *typeCtx) resolve(info *types.Info, c *call, a *ast.CallExpr) {
+	if tv, ok := info.Types[a.Fun]; ok && tv.IsType() {
+		return // conversion
+	}
+	fun := ast.Unparen(a.Fun)
+	pick := func(o types.Object) bool {
+		f, ok := o.(*types.Func)
+		if !ok {
+			return false
+		}
+		if k, ok := t.keyOf[f]; ok {
+			c.keys = []string{k}
+			return true
+		}
+		sig := f.Type().(*types.Signature)
+		if r := sig.Recv(); r != nil && types.IsInterface(r.Type()) {
+			c.keys = t.implementers(r.Type(), f.Name())
+			if f.Pkg() == nil || !t.isRepoPkg(f.Pkg()) {
+				c.ext = extFuncName(f)
+			}
+			return true
+		}
+		c.ext = extFuncName(f)
+		return true
+	}
+	switch f := fun.(type) {
+	case *ast.Ident:
+		if _, isBuiltin := info.ObjectOf(f).(*types.Builtin); isBuiltin {
+			return
+		}
+		if pick(info.ObjectOf(f)) {
+			return
+		}
+	case *ast.SelectorExpr:
+		if sel, ok := info.Selections[f]; ok {
+			if sel.Kind() == types.MethodVal && pick(sel.Obj()) {
+				return
+			}
+		} else if pick(info.ObjectOf(f.Sel)) {
+			return
+		}
+	case *ast.FuncLit:
+		return // analysed in place
+	}
+	// a function value: every function literal / plain function with identical signature
+	if sig, ok := info.TypeOf(fun).Underlying().(*types.Signature); ok {
+		seen := map[string]bool{}
+		for _, e := range t.sigs {
+			if types.Identical(e.sig, sig) && !seen[e.key] {
+				seen[e.key] = true
+				c.keys = append(c.keys, e.key)
+			}
+		}
+		sort.Strings(c.keys)
+		c.ext = "dyn:" + strings.Join(strings.Fields(types.TypeString(sig, func(p *types.Package) string { return p.Name() })), "")
+	}
+}
+
+func (t *typeCtx) isRepoPkg(p *types.Package) bool {
+	for _, tp := range t.tpkgs {
+		if tp.tpkg == p {
+			return true
+		}
+	}
+	return false
 }
 
 type summary struct {
@@ -121,6 +338,10 @@ func pkgVars(pi *pkgInfo) map[string]bool {
 }
 
 func summarize(f *fn) *summary {
+	var info *types.Info
+	if tp := tc.byPi[f.pkg]; tp != nil {
+		info = tp.info
+	}
 	s := &summary{key: f.key, recvType: recvType(f.decl), direct: map[write]bool{}, all: map[write]bool{}, typed: map[string]bool{}}
 	globals := pkgVars(f.pkg)
 	// names bound inside the function shadow package-level variables
@@ -180,56 +401,98 @@ func summarize(f *fn) *summary {
 	}
 	// alias map: local name -> set of param indices
 	alias := map[string]map[int]bool{}
-	rootsOf := func(e ast.Expr) map[int]bool {
+	// local name -> (parameter -> fields of the fresh literal held by the local that were initialised from it)
+	litAlias := map[string]map[int]map[string]bool{}
+	firstComp := func(p string) string {
+		f := strings.SplitN(strings.TrimLeft(p, "*"), ".", 2)[0]
+		return strings.TrimSuffix(f, "[]")
+	}
+	var rootsOf func(e ast.Expr) map[int]bool
+	rootsOf = func(e ast.Expr) map[int]bool {
 		res := map[int]bool{}
-		if r, _, ok := accessPath(e); ok {
+		if r, p, ok := accessPath(e); ok {
 			if i, ok := idx[r]; ok {
 				res[i] = true
 			}
 			for i := range alias[r] {
 				res[i] = true
 			}
+			if p != "" {
+				// a field of a fresh literal that was initialised from a parameter
+				for i, fs := range litAlias[r] {
+					if fs[firstComp(p)] || fs["?"] {
+						res[i] = true
+					}
+				}
+			}
 			return res
 		}
-		if cl, ok := e.(*ast.CompositeLit); ok {
+		return res
+	}
+	// fresh literal: field -> parameters its initialiser is rooted at
+	litOf := func(e ast.Expr) map[int]map[string]bool {
+		if u, ok := e.(*ast.UnaryExpr); ok && u.Op == token.AND {
+			e = u.X
+		}
+		cl, ok := e.(*ast.CompositeLit)
+		if !ok {
+			return nil
+		}
+		out := map[int]map[string]bool{}
+		var visit func(cl *ast.CompositeLit, top string)
+		visit = func(cl *ast.CompositeLit, top string) {
 			for _, el := range cl.Elts {
-				v := el
+				field, v := "?", el
 				if kv, ok := el.(*ast.KeyValueExpr); ok {
 					v = kv.Value
+					if id, ok := kv.Key.(*ast.Ident); ok {
+						field = id.Name
+					}
 				}
-				if r, _, ok := accessPath(v); ok {
-					if i, ok := idx[r]; ok {
-						res[i] = true
+				if top != "" {
+					field = top
+				}
+				inner := v
+				if u, ok := inner.(*ast.UnaryExpr); ok && u.Op == token.AND {
+					inner = u.X
+				}
+				if icl, ok := inner.(*ast.CompositeLit); ok {
+					visit(icl, field) // nested literal: flattened into the outer field
+					continue
+				}
+				for i := range rootsOf(v) {
+					if out[i] == nil {
+						out[i] = map[string]bool{}
 					}
-					for i := range alias[r] {
-						res[i] = true
-					}
+					out[i][field] = true
 				}
 			}
 		}
-		if u, ok := e.(*ast.UnaryExpr); ok && u.Op == token.AND {
-			if cl, ok := u.X.(*ast.CompositeLit); ok {
-				return func() map[int]bool {
-					r := map[int]bool{}
-					for _, el := range cl.Elts {
-						v := el
-						if kv, ok := el.(*ast.KeyValueExpr); ok {
-							v = kv.Value
-						}
-						if rr, _, ok := accessPath(v); ok {
-							if i, ok := idx[rr]; ok {
-								r[i] = true
-							}
-							for i := range alias[rr] {
-								r[i] = true
-							}
-						}
-					}
-					return r
-				}()
-			}
+		visit(cl, "")
+		return out
+	}
+	// access path of an actual below its root parameter; below a local alias the path is unknown ("?")
+	prefixOf := func(e ast.Expr) string {
+		r, p, ok := accessPath(e)
+		if !ok {
+			return ""
 		}
-		return res
+		if _, isParam := idx[r]; isParam || litAlias[r] != nil {
+			return p
+		}
+		if p == "" {
+			return "?"
+		}
+		return "?." + p
+	}
+	litRootsOf := func(e ast.Expr) map[int]map[string]bool {
+		if l := litOf(e); l != nil {
+			return l
+		}
+		if r, p, ok := accessPath(e); ok && p == "" {
+			return litAlias[r]
+		}
+		return nil
 	}
 	// two passes so that aliases defined later in source order (loops) are seen
 	for pass := 0; pass < 3; pass++ {
@@ -259,6 +522,17 @@ func summarize(f *fn) *summary {
 								alias[id.Name] = map[int]bool{}
 							}
 							alias[id.Name][p] = true
+						}
+						for p, fs := range litRootsOf(rhs) {
+							if litAlias[id.Name] == nil {
+								litAlias[id.Name] = map[int]map[string]bool{}
+							}
+							if litAlias[id.Name][p] == nil {
+								litAlias[id.Name][p] = map[string]bool{}
+							}
+							for f := range fs {
+								litAlias[id.Name][p][f] = true
+							}
 						}
 					}
 				}
@@ -292,6 +566,14 @@ func summarize(f *fn) *summary {
 		for i := range alias[r] {
 			targets[i] = true
 		}
+		// a write THROUGH a field of a fresh literal that was initialised from a parameter
+		if fc := firstComp(p); strings.TrimLeft(p, "*") != fc {
+			for i, fs := range litAlias[r] {
+				if fs[fc] || fs["?"] {
+					targets[i] = true
+				}
+			}
+		}
 		for i := range targets {
 			s.direct[write{i, p}] = true
 			first := strings.SplitN(strings.TrimLeft(p, "*"), ".", 2)[0]
@@ -311,7 +593,14 @@ func summarize(f *fn) *summary {
 		case *ast.IncDecStmt:
 			record(a.X)
 		case *ast.CallExpr:
-			c := call{}
+			c := call{name: src(a.Fun)}
+			if info != nil {
+				tc.resolve(info, &c, a)
+			}
+			if extWritesArg0[c.ext] && len(a.Args) > 0 {
+				// sort.Slice & co permute the elements of their first argument
+				record(&ast.IndexExpr{X: a.Args[0], Index: ast.NewIdent("_")})
+			}
 			switch fun := a.Fun.(type) {
 			case *ast.SelectorExpr:
 				// package-qualified function or method call
@@ -322,6 +611,8 @@ func summarize(f *fn) *summary {
 					c.meth = true
 					rs := rootsOf(fun.X)
 					c.roots = append(c.roots, encodeRoots(rs))
+					c.lits = append(c.lits, litRootsOf(fun.X))
+					c.paths = append(c.paths, prefixOf(fun.X))
 				}
 			case *ast.Ident:
 				if fun.Name == "append" || fun.Name == "delete" || fun.Name == "copy" {
@@ -349,11 +640,15 @@ func summarize(f *fn) *summary {
 					return true
 				}
 				c.name = fun.Name
-			default:
+			case *ast.FuncLit:
 				return true
+			default:
+				c.name = src(a.Fun)
 			}
 			for _, arg := range a.Args {
 				c.roots = append(c.roots, encodeRoots(rootsOf(arg)))
+				c.lits = append(c.lits, litRootsOf(arg))
+				c.paths = append(c.paths, prefixOf(arg))
 			}
 			s.calls = append(s.calls, c)
 		}
@@ -371,6 +666,19 @@ var pkgNames = map[string]bool{"auxmath": true, "errors": true, "finitefield": t
 
 func isPkgName(s string) bool { return pkgNames[s] }
 
+// the callee's write path below an actual with access path `prefix`; kept as first.?.last when long
+func joinPath(prefix, path string) string {
+	if prefix == "" {
+		return path
+	}
+	full := prefix + "." + path
+	comps := strings.Split(full, ".")
+	if len(comps) > 3 {
+		full = comps[0] + ".?." + comps[len(comps)-1]
+	}
+	return full
+}
+
 // roots encoded as bitmask over parameter indices (≤ 30 parameters)
 func encodeRoots(rs map[int]bool) int {
 	m := 0
@@ -381,6 +689,7 @@ func encodeRoots(rs map[int]bool) int {
 }
 
 func writeEffects(pkgs []*pkgInfo, funcs map[string]*fn, path string) {
+	tc = buildTypeCtx(flag.Lookup("repo").Value.String(), pkgs, funcs)
 	sums := map[string]*summary{}
 	keys := make([]string, 0, len(funcs))
 	for k, f := range funcs {
@@ -388,37 +697,16 @@ func writeEffects(pkgs []*pkgInfo, funcs map[string]*fn, path string) {
 		keys = append(keys, k)
 	}
 	sort.Strings(keys)
-	// name index
-	byMeth := map[string][]*summary{}
-	byFunc := map[string][]*summary{}
-	for _, k := range keys {
-		s := sums[k]
-		parts := strings.Split(k, ".")
-		name := parts[len(parts)-1]
-		if s.recvType != "" {
-			byMeth[name] = append(byMeth[name], s)
-		} else {
-			byFunc[parts[0]+"."+name] = append(byFunc[parts[0]+"."+name], s)
-			byFunc[name] = append(byFunc[name], s) // unqualified call inside the same package
-		}
-	}
 	changed := true
 	for iter := 0; changed && iter < 50; iter++ {
 		changed = false
 		for _, k := range keys {
 			s := sums[k]
-			pkg := strings.Split(k, ".")[0]
 			for _, c := range s.calls {
 				var cands []*summary
-				if c.meth {
-					cands = byMeth[c.name]
-				} else if strings.Contains(c.name, ".") {
-					cands = byFunc[c.name]
-				} else {
-					for _, cs := range byFunc[c.name] {
-						if strings.HasPrefix(cs.key, pkg+".") {
-							cands = append(cands, cs)
-						}
+				for _, ck := range c.keys {
+					if cs := sums[ck]; cs != nil {
+						cands = append(cands, cs)
 					}
 				}
 				for _, cs := range cands {
@@ -439,12 +727,33 @@ func writeEffects(pkgs []*pkgInfo, funcs map[string]*fn, path string) {
 							pos = len(c.roots) - 1
 						}
 						mask := c.roots[pos]
+						wpath := w.path
+						if pos < len(c.paths) {
+							wpath = joinPath(c.paths[pos], w.path)
+						}
 						for i := 0; i < len(s.params); i++ {
 							if mask&(1<<uint(i)) != 0 {
-								nw := write{i, w.path}
+								nw := write{i, wpath}
 								if !s.all[nw] {
 									s.all[nw] = true
 									changed = true
+								}
+							}
+						}
+						// the actual is a fresh literal: only a write THROUGH a field that was initialised
+						// from parameter i reaches i's memory
+						if pos < len(c.lits) && c.lits[pos] != nil {
+							tp := strings.TrimLeft(wpath, "*")
+							fc := strings.TrimSuffix(strings.SplitN(tp, ".", 2)[0], "[]")
+							if tp != fc {
+								for i, fs := range c.lits[pos] {
+									if fs[fc] || fs["?"] || fc == "?" {
+										nw := write{i, wpath}
+										if !s.all[nw] {
+											s.all[nw] = true
+											changed = true
+										}
+									}
 								}
 							}
 						}
@@ -470,7 +779,7 @@ func writeEffects(pkgs []*pkgInfo, funcs map[string]*fn, path string) {
 	var b strings.Builder
 	b.WriteString("-- GENERATED by /verif/extract from /repo's working tree — do not edit\n")
 	b.WriteString("namespace Algobra.Gen\n\n")
-	b.WriteString("/-- one function: key, receiver type, exported?, parameter names (receiver first), parameter types,\n    may-write set as (parameter index, last path component), direct typed writes \"Type.field\", callee names -/\n")
+	b.WriteString("/-- one function: key, receiver type, exported?, parameter names (receiver first), parameter types,\n    may-write set as (parameter index, last path component), direct typed writes \"Type.field\",\n    keys of the possible callees resolved by TYPE (\"ext:…\" / \"dyn:…\" = outside the repository / function value) -/\n")
 	b.WriteString("structure Fn where\n  key : String\n  recv : String\n  exported : Bool\n  params : List String\n  ptypes : List String\n  writes : List (Nat × String)\n  typed : List String\n  calls : List String\n\n")
 	// chunk the list to keep each definition small
 	const chunk = 40
@@ -506,7 +815,12 @@ func writeEffects(pkgs []*pkgInfo, funcs map[string]*fn, path string) {
 			sort.Strings(ts)
 			cn := map[string]bool{}
 			for _, c := range s.calls {
-				cn[c.name] = true
+				for _, k := range c.keys {
+					cn[k] = true
+				}
+				if c.ext != "" {
+					cn[c.ext] = true
+				}
 			}
 			var cs []string
 			for c := range cn {
